@@ -671,6 +671,7 @@ func (fr *Frame) selectOp(st *State, x *ssa.Select) {
 	}
 	fr.vals[x] = Val{Sort: "Tuple", Typ: x.Type(), Tuple: vals}
 	u.emitEvent(st, "Select", nil)
+	u.emitEvent(st, "Selected", []Val{{T: idx, Sort: SInt}})
 }
 
 // ---------------------------------------------------------------------------
